@@ -68,8 +68,12 @@ func datumTransform(source, dest *datum, x, y, z float64) (float64, float64, flo
 		}*/
 	}
 	if dest.datum_type == pjdGridShift {
-		dest.a = srsWGS84SemiMajor
-		dest.es = srsWGS84ESquared
+		// Grid shifts are not supported. Report that before the destination
+		// datum is touched: it is shared with the caller's reference and with
+		// every other Transformer built from it, and an ellipsoid replaced
+		// here and not put back made transformers fail that worked before.
+		err := fmt.Errorf("in proj.datumTransform: gridshift not supported")
+		return math.NaN(), math.NaN(), math.NaN(), err
 	}
 	// Do we need to go through geocentric coordinates?
 	if source.es != dest.es || source.a != dest.a || checkDatumParams(fallback) ||
@@ -94,14 +98,6 @@ func datumTransform(source, dest *datum, x, y, z float64) (float64, float64, flo
 		x, y, z = dest.geocentric_to_geodetic(x, y, z)
 		// CHECK_RETURN;
 	}
-	// Apply grid shift to destination if required
-	if dest.datum_type == pjdGridShift {
-		err := fmt.Errorf("in proj.datumTransform: gridshift not supported")
-		return math.NaN(), math.NaN(), math.NaN(), err
-		//this.apply_gridshift(dest, 1, x, y, z)
-		// CHECK_RETURN;
-	}
-
 	source.a = src_a
 	source.es = src_es
 	dest.a = dst_a
